@@ -586,7 +586,8 @@ def shrink_mapping(d: dict[str, Any], strict: bool, label: str, key: str, budget
 # ----------------------------------------------------------------------------------------------------------------
 
 CORPUS: list[tuple[str, str]] = [
-    ("generic", "!==x"), ("generic", "'x' IN"), ("generic", "'x' not\tin"), ("generic", "'x' in"), ("generic", "a, 'x' NOT IN"), ("generic", "==a || !=b,!=c"),
+    ("generic", "!==x"), ("generic", "\"a\" IN"), ("generic", "'a' not\tin"), ("vconstraint", "==1.0a1.dev0.*,<=1.0"),
+    ("vconstraint", "==1.0.post1.dev0.*,>1.0.0"), ("vconstraint", "1.0 || 1.0+local"), ("dependency", "foo.tar.gz"), ("generic", "'x' IN"), ("generic", "'x' not\tin"), ("generic", "'x' in"), ("generic", "a, 'x' NOT IN"), ("generic", "==a || !=b,!=c"),
     ("generic", ""), ("generic", "*"), ("generic", "||"), ("generic", ","), ("generic", "'a' in, 'b' not in"), ("generic", "\"a\" in"),
     ("vconstraint", "!=0 || ==0.*"), ("vconstraint", "==1!1.0.*"), ("vconstraint", "!=1.0.*"), ("vconstraint", ">=1.0+x || 1.0"),
     ("vconstraint", "!=1.0,!=1.0+x"), ("vconstraint", ">1,<1"), ("vconstraint", ">=1,<=1"), ("vconstraint", "<=1.0+x,>=1.0"), ("vconstraint", "^"),
